@@ -187,7 +187,14 @@ impl Ser {
     fn c14(&self, rng: &mut Rng, ctx: &mut Ctx, forced: Option<(ANode, Vec<QName>)>) {
         let (a, forced_cdata) = match forced {
             Some((a, c)) => (a, Some(c)),
-            None => (gen_tree(rng), None),
+            None => {
+                let mut t = gen_tree(rng);
+                if t.kind == AKind::Doc && !crate::engine::legs_mode() && rng.chance(1, 10) {
+                    wrap_deep(&mut t, &["w", "v"], *rng.pick(&[15, 16, 17, 31, 32, 33, 34, 64, 65, 130]));
+                    ctx.count("deep_chain_trees");
+                }
+                (t, None)
+            }
         };
         if a.count() >= 3 {
             ctx.nontrivial(a.structural_hash() ^ rng.next_u64());
@@ -332,7 +339,21 @@ impl Ser {
     }
 
     fn c16(&self, rng: &mut Rng, ctx: &mut Ctx) {
-        let a = gen_tree(rng);
+        let mut a = gen_tree(rng);
+        let legs = crate::engine::legs_mode();
+        // deep unmixed nesting (indentation widths beyond any fixed buffer) and empty text nodes (API-only trees)
+        if a.kind == AKind::Doc && rng.chance(1, 8) {
+            let depth = if legs { rng.range(2, 5) } else { *rng.pick(&[15, 16, 17, 18, 31, 32, 33, 34, 63, 64, 65, 66, 130]) };
+            wrap_deep(&mut a, &["w", "v"], depth);
+            ctx.count("deep_chain_trees");
+        }
+        if rng.chance(1, 5) {
+            let mut n = 3;
+            sprinkle_empty_text(&mut a, rng, &mut n);
+            if n < 3 {
+                ctx.count("trees_with_empty_text_nodes");
+            }
+        }
         if a.count() >= 3 {
             ctx.nontrivial(a.structural_hash() ^ rng.next_u64());
         }
@@ -645,14 +666,14 @@ impl Monitor for Ser {
     }
     fn rule(&self) -> String {
         match self.0 {
-            SW::C14 => "XML-representable trees with text concentrated on ']' / '>' runs, CR/LF/TAB, whitespace-only text, and xml:space in {preserve, default, other} at any depth x random subsets of the tree's element names as CDATA-section elements and as suppress list x unescaped_gt x declaration {none, plain, encoding + standalone} x indentation on/off, on documents, fragments and element subtrees: without indentation the reparse must be deep-equal; with indentation a whitespace diff must find only added whitespace-only text nodes, none inside mixed content, xml:space=preserve scope or a suppressed element. Non-trivial = tree >= 3 nodes; distinct by hash of (tree, parameters)".into(),
-            SW::C16 => "serialisable trees and their element subtrees x {CDATA-section elements, unescaped_gt, suppress list}: concatenated tokens == string serialisation, pretty tokens with indentation / space / newline applied == pretty string, serialize_xml_write into a Vec and into a one-byte-per-call writer == string bytes, and outputs() == the per-node event sequence derived from the abstract tree and the scope model (top element's inherited bindings as a set). Non-trivial = tree >= 3 nodes; distinct by hash of (tree, parameters)".into(),
+            SW::C14 => "XML-representable trees (one in ten wrapped in 15-130 levels of unmixed nesting) with text concentrated on ']' / '>' runs, CR/LF/TAB, whitespace-only text, and xml:space in {preserve, default, other} at any depth x random subsets of the tree's element names as CDATA-section elements and as suppress list x unescaped_gt x declaration {none, plain, encoding + standalone} x indentation on/off, on documents, fragments and element subtrees: without indentation the reparse must be deep-equal; with indentation a whitespace diff must find only added whitespace-only text nodes, none inside mixed content, xml:space=preserve scope or a suppressed element. Non-trivial = tree >= 3 nodes; distinct by hash of (tree, parameters)".into(),
+            SW::C16 => "serialisable trees (one in eight wrapped in 15-130 levels of unmixed nesting, one in five with empty text nodes that only the API can create) and their element subtrees x {CDATA-section elements, unescaped_gt, suppress list}: concatenated tokens == string serialisation, pretty tokens with indentation / space / newline applied == pretty string, serialize_xml_write into a Vec and into a one-byte-per-call writer == string bytes, and outputs() == the per-node event sequence derived from the abstract tree and the scope model (top element's inherited bindings as a set). Non-trivial = tree >= 3 nodes; distinct by hash of (tree, parameters)".into(),
         }
     }
     fn floors(&self, _tier: Tier) -> Vec<(&'static str, u64)> {
         match self.0 {
-            SW::C14 => vec![("reparsed_equal.plain", 10_000), ("reparsed_equal.indented", 10_000), ("whitespace_nodes_inserted", 10_000), ("with_cdata_section_elements", 5_000), ("with_declaration", 1_000)],
-            SW::C16 => vec![("tokens_equal_string", 10_000), ("pretty_tokens_equal_string", 10_000), ("writers_equal_string", 10_000), ("output_events_match", 10_000)],
+            SW::C14 => vec![("reparsed_equal.plain", 10_000), ("reparsed_equal.indented", 10_000), ("whitespace_nodes_inserted", 10_000), ("with_cdata_section_elements", 5_000), ("with_declaration", 1_000), ("deep_chain_trees", 2_000)],
+            SW::C16 => vec![("tokens_equal_string", 10_000), ("pretty_tokens_equal_string", 10_000), ("writers_equal_string", 10_000), ("output_events_match", 10_000), ("deep_chain_trees", 2_000), ("trees_with_empty_text_nodes", 2_000)],
         }
     }
     fn assumptions(&self) -> Vec<String> {
